@@ -22,3 +22,13 @@ package util
 //@   trusted forwards to bbolt.Tx.Bucket
 //@   requires tx != nil && tx.Tx != nil && tx.Tx.open
 //@   ensures implies(result != nil, result.Bucket != nil)
+//@ func OpenBolt
+//@   props C13
+//@   mode int
+//@   trusted forwards to bbolt.Open
+//@   ensures implies(result1 == nil && result0 != nil, fresh(result0))
+//@ func RootBoltImpl.View
+//@   props C12 C13
+//@   mode int
+//@   trusted runs fn inside a read transaction of bbolt (variables the function literal assigns are arbitrary afterwards)
+//@   requires r != nil
